@@ -176,4 +176,6 @@ class TCPServer(DualStackTCPServer):
                     raise
         if ntry:
             self.log.warning('tried again %d times after "Address already in use"', ntry)
+        # the port really bound (chosen by the system in case of tcp://0)
+        self.port = self.server_address[1]
         self.log.info("TCPServer initiated")
